@@ -34,7 +34,7 @@ import common as cm
 from symtorch import SymFloat, SymTensor, cur, from_ids, tracing
 from symtorch.axioms import ground_axioms
 from symtorch.explore import _to_float, prove
-from symtorch.ext_c15 import Canon, SymMath15, strip_stop
+from symtorch.ext_c15 import Canon, SymMath15, strip_stop, subst
 from symtorch.tensor import mkfloat
 from vlib.core import main_for, pmap
 
@@ -70,8 +70,10 @@ def target_json(kind):
               {'id': 'px', 'type': D, 'distribution': 'torch.distributions.Normal', 'x': _param('x', L['x']),
                'parameters': {'loc': 0.25, 'scale': 1.5}}]
     elif kind == 'cat':
+        # (numeric distribution parameters are not accepted together with a list-valued x: Parameter objects)
         ds = [{'id': 'prior', 'type': D, 'distribution': 'torch.distributions.Normal',
-               'x': [_param('p', L['p']), _param('q', L['q'])], 'parameters': {'loc': 0.25, 'scale': 1.5}}]
+               'x': [_param('p', L['p']), _param('q', L['q'])],
+               'parameters': {'loc': _param('loc', [0.25]), 'scale': _param('scale', [1.5])}}]
     elif kind == 'exptr':
         ds = [{'id': 'prior', 'type': D, 'distribution': 'torch.distributions.Exponential',
                'x': {'id': 'pos', 'type': 'TransformedParameter', 'transform': 'torch.distributions.ExpTransform',
@@ -110,10 +112,7 @@ def make_uf_target(params, sym):
                 return torch.tensor(concrete_U(q.tolist()), dtype=torch.float64)
             d = cur().dag
             ids = [strip_stop(d, i) for i in q._ids.tolist()]
-            vals = tuple(d.vals[i] for i in ids)
-            key = ('U', vals)
-            if key not in d.uf_witness:
-                d.uf_witness[key] = -0.5 * sum(v * v for v in vals) + 0.1 * sum(vals)
+            d.uf_eval.setdefault('U', lambda *v: -0.5 * sum(z * z for z in v) + 0.1 * sum(v))
             return from_ids(torch.tensor(d.uf('U', *ids), dtype=torch.int64))
 
         def _sample_shape(self):
@@ -128,6 +127,8 @@ def make_uf_target(params, sym):
 
 def make_target(kind, sym):
     """fresh model objects: (joint, {leaf id: Parameter})"""
+    import torchtree.distributions.distributions  # noqa: F401  (class registration)
+    import torchtree.distributions.joint_distribution  # noqa: F401
     from torchtree.core.parameter import Parameter
     from torchtree.core.utils import process_object
 
@@ -147,11 +148,14 @@ def set_state(leaves, state, sym):
             p.tensor = torch.tensor(state[n], dtype=torch.float64)
 
 
-def fresh_eval(kind, state, sym=True):
+def fresh_eval(kind, state, sym=True, nograd=True):
     """the target evaluated FROM SCRATCH: new model objects holding the given state"""
     joint, leaves = make_target(kind, sym)
     set_state(leaves, state, sym)
-    with torch.no_grad():
+    if nograd:
+        with torch.no_grad():
+            v = joint()
+    else:
         v = joint()
     return scalar_of(v, sym)
 
@@ -311,6 +315,7 @@ class Stubs:
 def execute(spec, vals, sym, hooks=None):
     """Run the real MCMC.run on the chain described by spec.  sym=True: inside tracing(), inputs are
     symbols with witness `vals`; sym=False: plain tensors / floats.  Returns the recorded run."""
+    import torchtree.inference.mcmc.operator  # noqa: F401  (class registration)
     from torchtree.core.logger import ContainerLogger, Logger
     from torchtree.core.utils import process_object
     from torchtree.inference.mcmc.mcmc import MCMC
@@ -546,7 +551,7 @@ def hastings_goal(d, t, ev, it):
     h = ev['h']
     out = {'frame': True, 'note': ''}
     touched = [(n, j) for n in before for j in range(len(before[n])) if before[n][j] != after[n][j]]
-    A = t.fresh('TP', d.vals[tp])
+    A = d.var('abs!TP', d.vals[tp])
     if kind in ('scaler', 'slide'):
         xi = ev['draws'].get(f'xi{it}')
         if xi is None or len(touched) > 1:
@@ -559,9 +564,9 @@ def hastings_goal(d, t, ev, it):
             return out
         n, j = touched[0]
         xj, xpj = before[n][j], after[n][j]
-        X = t.fresh('X', d.vals[xj])
-        m = {xj: X, tp: A} if kind == 'scaler' else {xj: X, tp: A}
-        f_abs, h_abs = d.substitute([xpj, h], m)
+        X = d.var('abs!X', d.vals[xj])
+        m = {xj: X, tp: A}
+        f_abs, h_abs = subst(d, [xpj, h], m)
         free = set(d.variables([f_abs, h_abs]))
         allowed = {d.args[X][0], d.args[A][0], d.args[xi][0]}
         if not free <= allowed:
@@ -576,7 +581,7 @@ def hastings_goal(d, t, ev, it):
         else:
             xir = d.sub(1, xi)
             dom = [d.lt(0, A), d.le(0, xi), d.lt(xi, 1)]
-        back, Jr = d.substitute([f_abs, Jf], {X: f_abs, xi: xir})
+        back, Jr = subst(d, [f_abs, Jf], {X: f_abs, xi: xir})
         R = d.div(sym_abs(d, Jf), sym_abs(d, Jr))
         out['dom'] = dom
         out['lemmas'] = [('the reverse draw maps the proposed value back to the current value and lies in [0,1]',
@@ -612,10 +617,10 @@ def hastings_goal(d, t, ev, it):
             out['note'] = 'the new state is not the Dirichlet draw'
             return out
         K = len(x)
-        Xs = [t.fresh('X', d.vals[i]) for i in x]
+        Xs = [d.var(f'abs!X{k}', d.vals[i]) for k, i in enumerate(x)]
         m = {xi_: X for xi_, X in zip(x, Xs)}
         m[tp] = A
-        res = d.substitute(conc + [h], m)
+        res = subst(d, conc + [h], m)
         conc_abs, h_abs = res[:K], res[K]
         allowed = {d.args[X][0] for X in Xs} | {d.args[A][0]} | set(d.variables(y))
         free = set(d.variables(conc_abs + [h_abs]))
@@ -623,7 +628,7 @@ def hastings_goal(d, t, ev, it):
             out['frame'] = False
             out['note'] = f'proposal kernel / Hastings term depend on more than (state, tuning parameter, draw): {sorted(free - allowed)}'
             return out
-        conc_rev = d.substitute(conc_abs, {X: yi for X, yi in zip(Xs, y)})
+        conc_rev = subst(d, conc_abs, {X: yi for X, yi in zip(Xs, y)})
 
         def logdir(v, alpha):
             s = 0
@@ -762,9 +767,9 @@ def build_goals(run, spec):
     for src, rows in (('ContainerLogger', rec['rows']), ('Logger', [c for _, c in (rec['file_rows'] or {'rows': []})['rows']])):
         if not spec.get('loggers', True):
             continue
-        ok_n = len(rows) == len(rec['iters']) + (1 if src == 'Logger' else 0)
-        G(f'{src}: one row per iteration' + (' plus the initial row' if src == 'Logger' else ''), d.bconst(ok_n), f'{src}.log:rows')
-        states = ([rec['init_state']] if src == 'Logger' else []) + [ev['post'] for ev in rec['iters']]
+        ok_n = len(rows) == len(rec['iters']) + 1
+        G(f'{src}: the initial row plus one row per iteration', d.bconst(ok_n), f'{src}.log:rows')
+        states = [rec['init_state']] + [ev['post'] for ev in rec['iters']]
         for k, (row, stt) in enumerate(zip(rows, states)):
             dens, cells = row[0], row[1:]
             logged = {}
@@ -772,7 +777,7 @@ def build_goals(run, spec):
             for n in order:
                 logged[n] = [strip_stop(d, c) for c in cells[pos:pos + len(stt[n])]]
                 pos += len(stt[n])
-            Tl = fresh_eval(kind, logged)
+            Tl = fresh_eval(kind, logged, nograd=False)
             G(f'{src} row {k}: logged density == target at the logged parameter values, which are the chain state',
               d.and_(d.eq(dens, Tl), same(logged, stt)), f'{src}.log:row-self-consistent')
     if rec['file_rows'] is not None:
@@ -782,9 +787,10 @@ def build_goals(run, spec):
 
 
 def well_defined(run):
+    """denominators / log arguments of the REAL run (snapshot taken before the oracle added its own nodes)"""
     d = run.d
-    obl = [d.not_(d.eq(b, 0)) for b in run.t.denominators]
-    obl += [d.lt(0, x) if k == 'pos' else d.le(0, x) for k, x in run.t.domains]
+    obl = [d.not_(d.eq(b, 0)) for b in run.dens]
+    obl += [d.lt(0, x) if k == 'pos' else d.le(0, x) for k, x in run.doms]
     return obl
 
 
@@ -814,6 +820,57 @@ def witness_grid(spec):
             else:
                 W[n] = v
         yield W
+
+
+def find_flip(run, i, spec, rng, trials=600):
+    """an in-domain input on which the recorded path prefix pcs[:i] holds and decision i goes the other way
+    (the recorded expressions are evaluated with the true exp / log / lgamma and the witness function of U)"""
+    d = run.d
+    roots = run.pcs[:i + 1]
+    names = d.variables(roots)
+    base = dict(run.W)
+    kind = spec['target']
+    simplex = {n for n, _, dom in LEAVES[kind] if dom == 'simplex'}
+    for trial in range(trials):
+        env = dict(base)
+        for n in names:
+            stem = n.split('[')[0]
+            if re.match(r'^(u|xi)\d+$', n):
+                env[n] = rng.choice([rng.random(), rng.random() ** 3, 1 - rng.random() ** 3])
+            elif re.match(r'^y\d+$', stem) or stem in simplex:
+                pass
+            elif n.startswith('tp'):
+                if trial > trials // 2:
+                    env[n] = base[n] * rng.uniform(0.7, 1.3) if base[n] * 1.3 < 1 or not n.startswith('tp') else base[n]
+            elif trial > trials // 3:
+                env[n] = base[n] * rng.uniform(0.5, 1.6)
+        groups = {}
+        for n in base:
+            stem = n.split('[')[0]
+            if re.match(r'^y\d+$', stem) or (stem in simplex and trial > trials // 3):
+                groups.setdefault(stem, []).append(n)
+        for stem, ns in groups.items():
+            k = len(ns) + 1
+            mode = rng.random()
+            if mode < 0.4 and stem.startswith('y'):
+                # near the current state
+                ref = [base.get(f'x[{j}]', 1.0 / k) for j in range(k - 1)]
+                g = [max(1e-3, r * rng.uniform(0.8, 1.25)) for r in ref]
+                tot = sum(g) + max(1e-3, (1 - sum(ref)) * rng.uniform(0.8, 1.25))
+            else:
+                g = [rng.gammavariate(rng.choice([0.5, 1.0, 3.0]), 1.0) + 1e-6 for _ in range(k - 1)]
+                tot = sum(g) + rng.gammavariate(1.0, 1.0) + 1e-6
+            for n_, gv in zip(sorted(ns), g):
+                env[n_] = gv / tot
+        if not in_domain(spec, env):
+            continue
+        try:
+            ev = d.evaluate(roots, env)
+        except (ValueError, OverflowError, ZeroDivisionError):
+            continue
+        if all(ev[c] for c in roots[:-1]) and not ev[roots[-1]]:
+            return env
+    return None
 
 
 def chain_task(task, tr):
@@ -853,7 +910,9 @@ def chain_task(task, tr):
     # ---- coverage: every missing sibling of every explored path is infeasible (or gets explored)
     pending = list(order)
     checked = set()
-    budget = 40
+    import random
+
+    rng = random.Random(15)
     while pending:
         key = pending.pop(0)
         run = runs[key]
@@ -863,21 +922,20 @@ def chain_task(task, tr):
             if sib in checked or any(k[:i + 1] == sib for k in runs):
                 continue
             checked.add(sib)
+            # 1. concrete search (true exp/log/lgamma/U on the recorded expressions) for an input that takes the other branch
+            W2 = find_flip(run, i, spec, rng)
+            if W2 is not None:
+                new_run = explore(W2)
+                if new_run is not None and any(k[:i + 1] == sib for k in runs):
+                    pending.append(order[-1])
+                    continue
+            # 2. otherwise the other branch must be infeasible
             neg = d.not_(run.pcs[i])
             hy = run.dom + run.pcs[:i] + [neg]
             hy = hy + ground_axioms(d, run.pcs[:i + 1], monotone=True)
-            varids = list(run.V.values())
-            st, r, _ = prove(d, hy, d.FALSE, timeout=20, get_values=varids, tr=tr, label='sibling infeasible')
+            st, r, _ = prove(d, hy, d.FALSE, timeout=20, get_values=list(run.V.values()), tr=tr, label='sibling infeasible')
             if st == 'proved':
                 continue
-            if st == 'refuted' and budget > 0:
-                budget -= 1
-                W2 = {n: _to_float(r.values[i_]) for n, i_ in run.V.items() if i_ in r.values}
-                if in_domain(spec, W2):
-                    new = explore(W2)
-                    if new is not None and any(k[:i + 1] == sib for k in runs):
-                        pending.append(order[-1])
-                        continue
             tr.inconc(f'{label}: no coverage certificate: the branch opposite to "{d.to_str(run.pcs[i], 5)}" '
                       f'(decision {i} of a path) is neither explored nor proved infeasible ({st})')
             return
@@ -1077,7 +1135,7 @@ def replay_chain(spec, vals, focus=None, hooks=None):
         expected_rows.append(state)
     if spec.get('loggers', True):
         order = rec['leaf_order']
-        for src, rows, exp in (('ContainerLogger', rec['rows'], expected_rows[1:]),
+        for src, rows, exp in (('ContainerLogger', rec['rows'], expected_rows),
                                ('Logger', [c for _, c in rec['file_rows']['rows']], expected_rows)):
             if len(rows) != len(exp):
                 return True, f'{src}: {len(rows)} rows for {len(exp)} expected'
@@ -1087,3 +1145,535 @@ def replay_chain(spec, vals, focus=None, hooks=None):
                     return True, (f'{src} row {k}: logged density {row[0]!r} / parameters {row[1:]}; chain state {flat}, '
                                   f'target there {oracle_logp(kind, stt)!r}')
     return False, 'real chain and independent Metropolis-Hastings simulation agree'
+
+
+# ------------------------------------------------------------------ G6: tuning direction
+TUNE_NAMES = {'scaler': 'ScalerOperator', 'slide': 'SlidingWindowOperator', 'dirichlet': 'DirichletOperator',
+              'gmrf': 'GMRFBlockUpdating', 'hmc': 'HMCOperator', 'adaptive': 'AdaptiveStepSize',
+              'adaptive-rate': 'AdaptiveStepSize', 'dual': 'DualAveragingStepSize'}
+TUNE_DEFAULT = {'scaler': 0.6, 'slide': 0.9, 'dirichlet': 40.0, 'gmrf': 1.0025, 'hmc': 0.11, 'adaptive': 0.11,
+                'adaptive-rate': 0.11, 'dual': 0.11}
+TUNE_TARGET = {'scaler': TAU, 'slide': TAU, 'dirichlet': TAU, 'gmrf': TAU, 'hmc': 0.8, 'adaptive': 0.8,
+               'adaptive-rate': 0.8, 'dual': 0.8}
+
+
+class _Patch:
+    """replace the `math` module of the torchtree modules under analysis by SymMath15 (restored on exit)"""
+
+    def __init__(self, sym):
+        self.sym = sym
+
+    def __enter__(self):
+        import torchtree.inference.hmc.adaptation as ad
+        import torchtree.inference.hmc.operator as ho
+        import torchtree.inference.mcmc.gmrf_block_updating as gb
+        import torchtree.inference.mcmc.operator as om
+        import torchtree.ops.dual_averaging as da
+
+        self.mods = [ad, ho, gb, om, da]
+        self.saved = [m.math for m in self.mods]
+        if self.sym:
+            for m in self.mods:
+                m.math = SymMath15()
+        return self
+
+    def __exit__(self, *exc):
+        for m, s in zip(self.mods, self.saved):
+            m.math = s
+        return False
+
+
+def make_tunable(kind, tp, count, sym, extra=None):
+    """real operator / adaptor objects; returns (tune(A), get_tuning_parameter, get_adaptable or None)"""
+    from torchtree.core.parameter import Parameter
+    from torchtree.inference.mcmc import operator as opmod
+
+    extra = extra or {}
+    x = Parameter('x', torch.tensor([0.2, 0.3, 0.5], dtype=torch.float64))
+    if kind in ('scaler', 'slide', 'dirichlet'):
+        op = getattr(opmod, OPCLS[kind])('op', [x], 1.0, TAU, tp)
+        op._adapt_count = count
+        return (lambda A: op.tune(A, sample=1, accepted=True)), (lambda: op.tuning_parameter), (lambda: op.adaptable_parameter), op
+    if kind == 'gmrf':
+        from torchtree.distributions.gmrf import GMRF
+        from torchtree.inference.mcmc.gmrf_block_updating import GMRFPiecewiseCoalescentBlockUpdatingOperator
+
+        gm = GMRF('gmrf', Parameter('field', torch.tensor([0.1, 0.2, 0.3], dtype=torch.float64)),
+                  Parameter('precision', torch.tensor([2.0], dtype=torch.float64)))
+        op = GMRFPiecewiseCoalescentBlockUpdatingOperator('op', None, gm, 1.0, TAU, tp)
+        op._adapt_count = count
+        return (lambda A: op.tune(A, sample=1, accepted=True)), (lambda: op.tuning_parameter), (lambda: op.adaptable_parameter), op
+    from torchtree.inference.hmc.adaptation import AdaptiveStepSize, DualAveragingStepSize
+    from torchtree.inference.hmc.integrator import LeapfrogIntegrator
+    from torchtree.inference.hmc.operator import HMCOperator
+
+    integ = LeapfrogIntegrator('leapfrog', 2, tp)
+    q = Parameter('q', torch.tensor([0.3, 0.7], dtype=torch.float64))
+    mass = Parameter('mass', torch.ones(2, dtype=torch.float64))
+    target = make_uf_target([q], sym)
+    adaptors = []
+    if kind in ('adaptive', 'adaptive-rate'):
+        ad = AdaptiveStepSize.from_json({'id': 'ad', 'integrator': 'leapfrog', 'target_acceptance_probability': 0.8,
+                                         'use_acceptance_rate': kind == 'adaptive-rate'}, {'leapfrog': integ})
+        ad._call_counter = count
+        ad._accepted = extra.get('accepted_so_far', 0)
+        adaptors = [ad]
+    elif kind == 'dual':
+        ad = DualAveragingStepSize.from_json({'id': 'da', 'integrator': 'leapfrog', 'target_acceptance_probability': 0.8},
+                                             {'leapfrog': integ})
+        if count:
+            ad._dual_avg._counter = count
+            ad._call_counter = count
+            ad._dual_avg.s_bar = extra['s_bar']
+        adaptors = [ad]
+    op = HMCOperator('hmc', target, [q], integ, mass, 1.0, 0.8, adaptors)
+    op._adapt_count = count
+    acc = extra.get('accepted', True)
+    return (lambda A: op.tune(A, sample=1, accepted=acc)), (lambda: integ.step_size), None, op
+
+
+def spread_of(d, kind, p):
+    """a quantity that is increasing in the boldness of the proposal"""
+    if kind == 'scaler':
+        return d.sub(d.div(1, p), p)  # length of the interval [a, 1/a] of scale factors
+    if kind == 'dirichlet':
+        return d.div(1, d.add(p, 1))  # Var(y_i | x) = x_i (1 - x_i) / (scaler + 1)
+    if kind == 'gmrf':
+        return d.sub(p, d.div(1, p))  # length of the interval [1/s, s] of precision factors
+    return p  # window width / leapfrog step size
+
+
+def tune_domain(d, kind, V):
+    cs = [d.le(0, V['A']), d.le(V['A'], 1)]
+    p = V['tp']
+    if kind == 'scaler':
+        cs += [d.lt(0, p), d.lt(p, 1)]
+    elif kind == 'gmrf':
+        cs += [d.le(1, p)]
+    else:
+        cs += [d.lt(0, p)]
+    if 'n' in V:
+        cs += [d.le(0, V['n'])]
+    return cs
+
+
+def tune_task(task, tr):
+    kind, count = task['op'], task['count']
+    name = TUNE_NAMES[kind]
+    tau = TUNE_TARGET[kind]
+    label = f'tune {name} adapt_count={count}'
+    tr.stubs.add('math module of the operator / adaptation modules -> SymMath (exp/log/sqrt uninterpreted with axioms)')
+    with tracing() as t, _Patch(True):
+        d = t.dag
+        V = {'tp': d.var('tp', TUNE_DEFAULT[kind]), 'A': d.var('A', 0.6)}
+        tp = mkfloat(V['tp'])
+        n = count
+        if count == 'sym':
+            V['n'] = d.var('n', 3.0)
+            n = mkfloat(V['n'])
+        extra = {}
+        if kind == 'dual' and count:
+            V['sbar'] = d.var('sbar', 0.2)
+            extra['s_bar'] = mkfloat(V['sbar'])
+        if kind == 'adaptive-rate':
+            extra = {'accepted_so_far': task['accepted_so_far'], 'accepted': task['accepted']}
+        tune, get_tp, get_adapt, op = make_tunable(kind, tp, n, True, extra)
+        tr.fn(type(op).tune, type(op).set_adaptable_parameter)
+        for a in getattr(op, '_adaptors', []):
+            tr.fn(type(a).learn, type(a).from_json)
+        if kind == 'dual':
+            from torchtree.ops.dual_averaging import DualAveraging
+
+            tr.fn(DualAveraging.step)
+        A = from_ids(torch.tensor(V['A'], dtype=torch.int64))
+        L = SymFloat._id(get_adapt()) if get_adapt else None
+        p0 = V['tp']
+        tune(A)
+        p1 = SymFloat._id(get_tp())
+        tr.witness_runs += 1
+        tr.regions += 1
+        tr.ops_checked += t.nchecked
+        if t.concretized:
+            tr.inconc(f'{label}: symbolic value concretised: {t.concretized[:3]}')
+            return
+        dom = tune_domain(d, kind, V)
+        pcs = list(t.pcs)
+        # true instances of exp(a + b) = exp(a) exp(b) for the update  v = adaptable + (A - target) / (2 + count)
+        nn = d.const(count) if count != 'sym' else V['n']
+        hy = []
+        if kind in ('adaptive', 'hmc', 'scaler', 'slide', 'dirichlet', 'gmrf'):
+            cnt = nn if kind != 'adaptive' else d.add(nn, 1)  # AdaptiveStepSize increments its counter first
+            delta = d.div(d.sub(V['A'], d.const(tau)), d.add(d.const(2), cnt))
+            La = L if L is not None else d.log(p0)
+            if kind != 'gmrf':
+                hy.append(d.eq(d.exp(d.add(La, delta)), d.mul(d.exp(La), d.exp(delta))))
+                hy += ground_axioms(d, [d.exp(delta)])
+        s0, s1 = spread_of(d, kind, p0), spread_of(d, kind, p1)
+        above, below = d.lt(d.const(tau), V['A']), d.lt(V['A'], d.const(tau))
+        goals = []
+        if kind == 'adaptive-rate':
+            rate = (task['accepted_so_far'] + (1 if task['accepted'] else 0)) / (count + 1)
+            goals.append(('above' if rate > tau else 'below',
+                          f'running acceptance rate {rate:.2f} {"above" if rate > tau else "below"} target: step size does not '
+                          f'{"decrease" if rate > tau else "increase"}', d.le(s0, s1) if rate > tau else d.le(s1, s0)))
+        elif kind == 'dual' and not count:
+            # first step after restart (from_json: mu = log(10 * initial step size))
+            goals.append(('above', 'first dual-averaging step: acceptance above target does not shrink the step size',
+                          d.or_(d.not_(above), d.le(s0, s1))))
+            eta = d.div(1, d.const(11))
+            b = d.div(d.mul(d.sub(V['A'], d.const(tau)), eta), d.const(0.05))
+            a = d.log(d.mul(d.const(10), p0))
+            hy.append(d.eq(d.exp(d.add(a, b)), d.mul(d.exp(a), d.exp(b))))
+            hy += ground_axioms(d, [d.exp(b)])
+        elif kind == 'dual':
+            pass  # generic state: only the monotone response below
+        else:
+            goals.append(('above', 'acceptance above target: the proposal spread does not decrease', d.or_(d.not_(above), d.le(s0, s1))))
+            goals.append(('below', 'acceptance below target: the proposal spread does not increase', d.or_(d.not_(below), d.le(s1, s0))))
+            goals.append(('fixed', 'acceptance equal to the target leaves the tuning parameter unchanged',
+                          d.or_(d.not_(d.eq(V['A'], d.const(tau))), d.eq(p0, p1))))
+        okd = {'scaler': d.and_(d.lt(0, p1), d.lt(p1, 1)), 'gmrf': d.le(1, p1)}.get(kind, d.lt(0, p1))
+        goals.append(('domain', 'the new tuning parameter is inside its domain', okd))
+        if kind == 'dual':
+            # monotone response: a second, larger acceptance statistic from the same state gives a larger step size
+            V['A2'] = d.var('A2', 0.9)
+            tune2, get_tp2, _, op2 = make_tunable(kind, tp, n, True, extra)
+            tune2(from_ids(torch.tensor(V['A2'], dtype=torch.int64)))
+            p2 = SymFloat._id(get_tp2())
+            dom += [d.le(0, V['A2']), d.le(V['A2'], 1)]
+            goals.append(('monotone', 'the new step size is an increasing function of the acceptance statistic',
+                          d.or_(d.not_(d.lt(V['A'], V['A2'])), d.lt(p1, p2))))
+            pcs = list(t.pcs)
+        ax = ground_axioms(d, [g[2] for g in goals] + hy, monotone=True)
+        wd = [d.not_(d.eq(b, 0)) for b in t.denominators] + [d.lt(0, x) if k == 'pos' else d.le(0, x) for k, x in t.domains]
+        if wd:
+            goals.append(('defined', 'every denominator is non-zero and every log / sqrt argument is in its domain', d.and_(*wd)))
+        tr.sample({'case': label, 'new_tuning_parameter': d.to_str(p1, 7), 'goals': [g[1] for g in goals]})
+        tr.bounds['tune'] = 'one tune()/learn() call from a symbolic tuning parameter and acceptance probability; adapt_count in {0, 3, symbolic >= 0}'
+        varids = list(V.values())
+        for which, text, node in goals:
+            st, r, _ = prove(d, dom + pcs + hy + ax, node, timeout=40, get_values=varids, tr=tr, label=text)
+            if st == 'proved':
+                continue
+            sig = f'{name}.tune:' + {'above': 'acceptance-above-target-makes-proposals-more-timid',
+                                     'below': 'acceptance-below-target-makes-proposals-bolder',
+                                     'fixed': 'moves-at-target', 'domain': 'leaves-domain', 'defined': 'well-defined',
+                                     'monotone': 'step-size-not-monotone-in-acceptance'}[which]
+            if kind == 'gmrf' and which in ('above', 'below'):
+                sig = 'GMRFBlockUpdating.set_adaptable_parameter:non-monotone'
+            cands = []
+            if st == 'refuted':
+                cands.append({nm: _to_float(r.values[i]) for nm, i in V.items() if i in r.values})
+            cands.append({nm: d.vals[i] for nm, i in V.items()})
+            done = False
+            for vals in cands:
+                ok, detail = replay_tune(task, which, vals)
+                if ok:
+                    tr.violation(sig, f'{label}: {text} fails at {vals}: {detail}', {'kind': 'tune', 'task': task, 'which': which, 'values': vals})
+                    done = True
+                    break
+            if not done:
+                tr.inconc(f'{label}: "{text}" {"refuted by the solver" if st == "refuted" else "undecided"}; the concrete replay shows no defect')
+
+
+def concrete_spread(kind, op, tp):
+    """spread of the proposal measured on the REAL proposal code (plain floats), independent of the tuning formulas"""
+    if kind in ('scaler', 'slide'):
+        lo = real_move(kind, tp, 1.0, 0.0)[0]
+        hi = real_move(kind, tp, 1.0, 1.0 - 1e-12)[0]
+        return abs(hi - lo)
+    if kind == 'dirichlet':
+        seen = {}
+        saved = torch.distributions.Dirichlet.sample
+
+        def grab(self_, sample_shape=torch.Size()):
+            seen['c'] = self_.concentration.tolist()
+            return torch.tensor([0.25, 0.35, 0.4], dtype=torch.float64)
+
+        torch.distributions.Dirichlet.sample = grab
+        try:
+            op.saved = [p.tensor.clone() for p in op.parameters]
+            keep = op.parameters[0].tensor.clone()
+            op._step()
+            op.parameters[0].tensor = keep
+        finally:
+            torch.distributions.Dirichlet.sample = saved
+        a = seen['c']
+        a0 = sum(a)
+        return sum(ai * (a0 - ai) / (a0 * a0 * (a0 + 1)) for ai in a)
+    if kind == 'gmrf':
+        saved = torch.rand
+        out = []
+        try:
+            for first in (0.0, 1.0 - 1e-12):
+                for second in (0.0, 1.0 - 1e-12):
+                    seq = iter([first, second])
+                    torch.rand = lambda *a, **k: torch.tensor([next(seq)], dtype=torch.float64)
+                    out.append(float(torch.as_tensor(op.propose_precision()).reshape(-1)[0]) / float(op.gmrf.precision.tensor[0]))
+        finally:
+            torch.rand = saved
+        return max(out) - min(out)
+    return float(op._integrator.step_size)
+
+
+def replay_tune(task, which, vals):
+    kind, count = task['op'], task['count']
+    tau = TUNE_TARGET[kind]
+    tp, A = vals.get('tp', TUNE_DEFAULT[kind]), vals.get('A', 0.6)
+    n = count if count != 'sym' else max(0, int(round(vals.get('n', 3.0))))
+    if not (0 <= A <= 1) or tp <= 0 or (kind == 'scaler' and tp >= 1) or (kind == 'gmrf' and tp < 1):
+        return False, 'outside the domain'
+    extra = {}
+    if kind == 'dual' and count:
+        extra['s_bar'] = vals.get('sbar', 0.2)
+    if kind == 'adaptive-rate':
+        extra = {'accepted_so_far': task['accepted_so_far'], 'accepted': task['accepted']}
+    try:
+        tune, get_tp, _, op = make_tunable(kind, tp, n, False, extra)
+        s0 = concrete_spread(kind, op, get_tp())
+        tune(torch.tensor(A, dtype=torch.float64))
+        p1 = float(get_tp())
+        s1 = concrete_spread(kind, op, p1)
+    except Exception as e:
+        return True, f'real tune() raised {type(e).__name__}: {e}'
+    info = f'tuning parameter {tp!r} -> {p1!r}, proposal spread {s0!r} -> {s1!r} (acceptance {A!r}, target {tau})'
+    eff = A
+    if kind == 'adaptive-rate':
+        eff = (task['accepted_so_far'] + (1 if task['accepted'] else 0)) / (n + 1)
+    if which == 'above' and eff > tau and s1 < s0 * (1 - 1e-12):
+        return True, 'acceptance above target made the proposal more timid: ' + info
+    if which == 'below' and eff < tau and s1 > s0 * (1 + 1e-12):
+        return True, 'acceptance below target made the proposal bolder: ' + info
+    if which == 'fixed' and A == tau and abs(p1 - tp) > 1e-12 * max(1, abs(tp)):
+        return True, 'acceptance at the target moved the tuning parameter: ' + info
+    if which == 'domain' and (not math.isfinite(p1) or p1 <= 0 or (kind == 'scaler' and p1 >= 1) or (kind == 'gmrf' and p1 < 1)):
+        return True, 'tuning parameter left its domain: ' + info
+    if which == 'monotone':
+        A2 = vals.get('A2', 0.9)
+        tune2, get_tp2, _, op2 = make_tunable(kind, tp, n, False, extra)
+        tune2(torch.tensor(A2, dtype=torch.float64))
+        if A < A2 and not float(get_tp2()) > p1:
+            return True, f'acceptance {A} -> step {p1}, acceptance {A2} -> step {float(get_tp2())}'
+    return False, 'agrees: ' + info
+
+
+# ------------------------------------------------------------------ guard branches and GMRF wiring
+def guard_task(task, tr):
+    from torchtree.inference.mcmc.mcmc import MCMC
+
+    which = task['which']
+    if which == 'gmrf-wiring':
+        return gmrf_wiring(task, tr)
+    tr.fn(MCMC.run)
+    spec = {'target': 'uf1', 'ops': [('scaler', ['x'])], 'plan': [(0, 0, 1), (0, 0, 0)], 'loggers': which == 'inf-hastings'}
+    label = f'guard {which}'
+
+    def hooks(mc, ops, joint, st):
+        if which == 'inf-hastings':
+            inner = ops[0].step
+            state = {'n': 0}
+
+            def step():
+                h = inner()
+                state['n'] += 1
+                return torch.tensor(float('inf'), dtype=torch.float64) if state['n'] == 1 else h
+
+            ops[0].step = step
+        else:
+            joint.nan_at = 2
+
+    tr.stubs |= set(Stubs.LIST)
+    tr.stubs.add({'inf-hastings': 'first operator step reports an infinite Hastings term (as HMC / GMRF operators do on failure)',
+                  'nan-density': 'the uninterpreted target returns NaN at the first proposal'}[which])
+    run = symbolic_run(spec, {'u1': 0.02, 'xi1': 0.12}, hooks)
+    tr.witness_runs += 1
+    tr.regions += 1
+    d = run.d
+    if [c for c in run.concretized if 'isnan' not in c and 'isinf' not in c]:
+        tr.inconc(f'{label}: concretised {run.concretized[:3]}')
+        return
+    if run.rec['crash'] or run.rec['stub_error']:
+        tr.inconc(f'{label}: {run.rec["crash"] or run.rec["stub_error"]}')
+        return
+    with tracing(run.t):
+        goals = build_goals(run, spec)
+    first = run.rec['iters'][0]
+    goals.append({'label': 'guard: the move with a non-finite Hastings term / density is rejected and tune() sees probability 0',
+                  'node': d.and_(d.bconst(first['accepted'] is False), d.eq(first['acc'], 0)), 'sig': 'MCMC.run:nonfinite-guard',
+                  'hyps': 'full', 'extra': [], 'key': None})
+    for g in goals:
+        if g['key'] == 'abs':
+            continue  # proposal-density statements are covered by the chain tasks
+        st, r, _ = prove(d, run.dom + run.pcs + g['extra'], g['node'], timeout=30, get_values=list(run.V.values()), tr=tr, label=g['label'])
+        if st != 'proved':
+            ok, detail = replay_guard(which)
+            if ok:
+                tr.violation(g['sig'] + ':' + which, f'{label}: {g["label"]}: {detail}', {'kind': 'guard', 'which': which})
+            else:
+                tr.inconc(f'{label}: "{g["label"]}" not proved ({st}) and the concrete replay agrees with the oracle')
+            return
+
+
+def replay_guard(which):
+    """concrete: a rejected non-finite move must leave the parameters bit-identical"""
+    spec = {'target': 'uf1', 'ops': [('scaler', ['x'])], 'plan': [(0, 0, 1)], 'loggers': False}
+
+    def hooks(mc, ops, joint, st):
+        if which == 'inf-hastings':
+            inner = ops[0].step
+            ops[0].step = lambda: (inner(), torch.tensor(float('inf'), dtype=torch.float64))[1]
+        else:
+            joint.nan_at = 2
+
+    rec = execute(spec, {'u0': 0.02, 'xi0': 0.3}, False, hooks)
+    ev = rec['iters'][0]
+    if rec['crash']:
+        return True, rec['crash']
+    if ev['accepted'] is not False or ev['post'] != ev['before']:
+        return True, f'accepted={ev["accepted"]}, parameters after the move {ev["post"]}, before {ev["before"]}'
+    return False, 'rejected and restored'
+
+
+def gmrf_wiring(task, tr):
+    """accept / reject / restore wiring of the GMRF block-updating operator (its proposal itself is outside the claim)"""
+    from symtorch import new_vars
+    from torchtree.inference.mcmc.gmrf_block_updating import GMRFPiecewiseCoalescentBlockUpdatingOperator as G
+    from torchtree.inference.mcmc.operator import MCMCOperator
+
+    tr.fn(MCMCOperator.step, MCMCOperator.reject, MCMCOperator.accept, G.__init__)
+    tr.stubs.add('GMRFPiecewiseCoalescentBlockUpdatingOperator._step -> assigns arbitrary symbolic field / precision (Newton iteration, '
+                 'Cholesky and triangular solves are outside the claim)')
+    with tracing() as t:
+        d = t.dag
+        _, _, _, op = make_tunable('gmrf', 2.0, 0, True)
+        gm = op.gmrf
+        gm.field.tensor = new_vars('field', torch.tensor([0.1, 0.2, 0.3]))
+        gm.precision.tensor = new_vars('precision', torch.tensor([2.0]))
+
+        def fake_step():
+            gm.precision.tensor = new_vars('precision_new', torch.tensor([2.5]))
+            gm.field.tensor = new_vars('field_new', torch.tensor([0.4, 0.1, 0.2]))
+            return from_ids(torch.tensor(d.var('h', 0.1), dtype=torch.int64))
+
+        op._step = fake_step
+        before = [p.tensor._ids.tolist() for p in op.parameters]
+        op.step()
+        prop = [p.tensor._ids.tolist() for p in op.parameters]
+        op.reject()
+        after_reject = [p.tensor._ids.tolist() for p in op.parameters]
+        op.step()
+        op.accept()
+        after_accept = [p.tensor._ids.tolist() for p in op.parameters]
+        tr.witness_runs += 1
+        tr.regions += 1
+        ok = (op.parameters[0] is gm.field and op.parameters[1] is gm.precision and after_reject == before and prop != before
+              and after_accept != before and op._accept == 1 and op._reject == 1)
+        prove(d, [], d.bconst(ok), tr=tr, label='gmrf wiring')
+        if not ok:
+            tr.violation('GMRFBlockUpdating.reject:restore', 'reject() does not restore field and precision / accept() does not keep them',
+                         {'kind': 'guard', 'which': 'gmrf-wiring'})
+
+
+# ------------------------------------------------------------------ tasks
+def run_task(task, tr):
+    {'chain': chain_task, 'tune': tune_task, 'guard': guard_task}[task['kind']](task, tr)
+
+
+def chain(target, ops, plan, **kw):
+    spec = {'target': target, 'ops': ops, 'plan': plan}
+    spec.update(kw)
+    lab = f'{target} ops={[o for o, _ in ops]} plan(op,param,coord)={plan}'
+    return {'kind': 'chain', 'spec': spec, 'label': lab}
+
+
+def tasks_for(tier):
+    ts = []
+    sc, sl, di = 'scaler', 'slide', 'dirichlet'
+    if tier == 'quick':
+        ts += [chain('uf1', [(sc, ['x'])], [(0, 0, 1), (0, 0, 0)]),
+               chain('uf2', [(sl, ['x', 'y'])], [(0, 1, 0), (0, 0, 0)]),
+               chain('normal', [(sc, ['x'])], [(0, 0, 0)]),
+               chain('gamma', [(sc, ['r', 'x'])], [(0, 0, 0)]),
+               chain('gamma', [(sl, ['r', 'x'])], [(0, 1, 0)]),
+               chain('cat', [(sc, ['p']), (sl, ['q'])], [(0, 0, 0), (1, 0, 0)]),
+               chain('exptr', [(sl, ['z'])], [(0, 0, 1), (0, 0, 1)]),
+               chain('ufsimplex', [(di, ['x'])], [(0, 0, 0)]),
+               chain('dirichlet', [(di, ['x'])], [(0, 0, 0)]),
+               chain('uf2', [(sc, ['x']), (sl, ['y'])], [(1, 0, 0)])]
+        for k in (sc, sl, di, 'gmrf', 'hmc', 'adaptive', 'dual'):
+            ts.append({'kind': 'tune', 'op': k, 'count': 0})
+        ts.append({'kind': 'tune', 'op': sc, 'count': 'sym'})
+        ts.append({'kind': 'tune', 'op': 'dual', 'count': 3})
+    else:
+        for target, leaves in LEAVES.items():
+            names = [n for n, _, _ in leaves]
+            simplex = leaves[0][2] == 'simplex'
+            kinds = [di] if simplex else [sc, sl]
+            coords = [(pi, ei) for pi, n in enumerate(names) for ei in range(len(leaves[pi][1]))]
+            for k in kinds:
+                if simplex:
+                    ts.append(chain(target, [(k, names)], [(0, 0, 0), (0, 0, 0)]))
+                    continue
+                for c1 in coords:
+                    for c2 in coords[:2]:
+                        ts.append(chain(target, [(k, names)], [(0,) + c1, (0,) + c2]))
+            if not simplex:
+                # mixtures: every order of two operators on the first / last parameter
+                a, b = names[0], names[-1]
+                for seq in itertools.product((0, 1), repeat=2):
+                    ts.append(chain(target, [(sc, [a]), (sl, [b])], [(s, 0, 0) for s in seq]))
+        for k in (sc, sl, di, 'gmrf', 'hmc', 'adaptive', 'dual'):
+            for c in (0, 3, 'sym'):
+                if k == 'dual' and c == 'sym':
+                    continue
+                ts.append({'kind': 'tune', 'op': k, 'count': c})
+        for so_far, acc in ((9, True), (2, False), (7, True)):
+            ts.append({'kind': 'tune', 'op': 'adaptive-rate', 'count': 9, 'accepted_so_far': so_far, 'accepted': acc})
+    ts += [{'kind': 'guard', 'which': w} for w in ('inf-hastings', 'nan-density', 'gmrf-wiring')]
+    return ts
+
+
+def body(chk):
+    chk.explanation = ('the real MCMC.run, operators, loggers and targets are executed symbolically with every random draw a symbol; '
+                       'the accept/reject decisions are path conditions, all decision paths are enumerated (missing siblings proved '
+                       'infeasible); on every path the proposal density used, the acceptance rule, the Hastings term (against the '
+                       'density ratio derived from the executed proposal map), restoration after reject and the logged rows are '
+                       'solver obligations; tune()/learn() steps are executed on symbolic floats and the direction of the change of '
+                       'the proposal spread is decided with ground instances of exp/log/sqrt laws')
+    chk.total.assumptions |= {
+        'exp / log / lgamma / sqrt are uninterpreted functions constrained by ground instances of their laws (positivity, sign, '
+        'monotonicity, exp(a+b) = exp(a) exp(b), log(1/s) = -log s); proofs (unsat) are sound, counterexamples are replayed',
+        'proposal densities: a uniform draw xi on [0,1) pushed through the executed map x\' = T(x, xi) has density 1/|dT/dxi|; '
+        'the reverse draw is accepted on the closed interval [0,1] (boundary of the support has measure zero)',
+        'operator and coordinate selection probabilities do not depend on the state (Categorical over fixed weights, uniform randint): '
+        'they cancel in the Hastings ratio and are not part of the obligations',
+        'adaptation is treated as fixed during one transition (diminishing adaptation is not examined)',
+        'HMCOperator proposals (leapfrog reversibility / volume preservation / kinetic-energy Hastings term) are the subject of C16 and are not repeated here',
+        'GMRFPiecewiseCoalescentBlockUpdatingOperator._step (Newton iteration with data-dependent stopping, Cholesky, triangular solves) '
+        'is OUTSIDE the claim: only its tuning re-parameterisation and accept/reject/restore wiring are checked',
+        'Logger csv cells are str() of the logged scalars; the check reads the expression behind each cell (number formatting itself is outside the claim)',
+        'DualAveragingStepSize: claimed are the first step after restart and monotonicity of the new step size in the acceptance statistic; '
+        'step-to-step monotonicity does not hold for Nesterov dual averaging by design (running average of past errors) and is not claimed',
+    }
+    pmap(run_task, tasks_for(chk.tier), chk.total)
+
+
+def replay_file(path):
+    r = json.load(open(path))
+    rp = r.get('replay', r)
+    if rp.get('kind') == 'chain':
+        ok, detail = replay_chain(rp['spec'], rp['values'])
+    elif rp.get('kind') == 'tune':
+        ok, detail = replay_tune(rp['task'], rp['which'], rp['values'])
+    elif rp.get('which') == 'gmrf-wiring':
+        ok, detail = False, 'symbolic-only obligation (re-run the check)'
+    else:
+        ok, detail = replay_guard(rp['which'])
+    print(('REPRODUCED ' if ok else 'NOT REPRODUCED ') + detail)
+    return 1 if ok else 0
+
+
+if __name__ == '__main__':
+    if '--replay' in sys.argv:
+        sys.exit(replay_file(sys.argv[sys.argv.index('--replay') + 1]))
+    sys.exit(main_for(PID, body))
